@@ -81,7 +81,13 @@ static void live_part(Case &c, Draw &d) {
   CHECK(c, CPU_EQUAL(&pre, &after), "load_keeps_binding", "hwloc_topology_load() (%s x86 backend, flags 0x%lx%s) changed the caller's binding: %d PUs before, %d after", nox86 ? "without" : "with", fl, helper ? ", second thread bound elsewhere" : "", CPU_COUNT(&pre), CPU_COUNT(&after));
   require_wf(c, t, "native topology");
   hwloc_const_bitmap_t allowed = hwloc_topology_get_allowed_cpuset(t); hwloc_bitmap_t cur = hwloc_bitmap_alloc(); CHECK(c, hwloc_get_cpubind(t, cur, HWLOC_CPUBIND_THREAD) == 0, "live_get", "get_cpubind failed errno %d", errno);
-  for (int k = 0; k < 6; k++) { hwloc_bitmap_t s = hwloc_bitmap_alloc(); int f; hwloc_bitmap_foreach_begin(f, allowed) { if (hwloc_bitmap_isset(cur, f) && d.chance(1, 2)) hwloc_bitmap_set(s, f); } hwloc_bitmap_foreach_end(); if (hwloc_bitmap_iszero(s)) hwloc_bitmap_set(s, hwloc_bitmap_first(cur));
+  // a topology that includes disallowed PUs and whose allowed set was narrowed by hwloc_topology_allow(): "any non-empty subset of the allowed cpuset" includes the allowed set itself
+  bool narrowed = false;
+  if (fk == 1 && hwloc_bitmap_weight(cur) >= 2 && d.chance(2, 3)) { hwloc_bitmap_t a = hwloc_bitmap_alloc(); int f; hwloc_bitmap_foreach_begin(f, cur) { if (hwloc_bitmap_isset(allowed, f) && d.chance(1, 2)) hwloc_bitmap_set(a, f); } hwloc_bitmap_foreach_end();
+    if (hwloc_bitmap_iszero(a)) hwloc_bitmap_set(a, hwloc_bitmap_first(cur)); if (hwloc_bitmap_isequal(a, cur)) hwloc_bitmap_clr(a, hwloc_bitmap_last(a));
+    int ar = hwloc_topology_allow(t, a, NULL, HWLOC_ALLOW_FLAG_CUSTOM); CHECK(c, ar == 0 && hwloc_bitmap_isequal(hwloc_topology_get_allowed_cpuset(t), a), "harness_live", "allow(CUSTOM, %s) returned %d errno %d", bstr(a).c_str(), ar, errno);
+    allowed = hwloc_topology_get_allowed_cpuset(t); narrowed = true; c.descf(", allowed set narrowed to %s", bstr(a).c_str()); hwloc_bitmap_free(a); require_wf(c, t, "native topology after allow"); c.cls("live:allowed-narrowed"); }
+  for (int k = 0; k < 6; k++) { hwloc_bitmap_t s = hwloc_bitmap_alloc(); int f; hwloc_bitmap_foreach_begin(f, allowed) { if (hwloc_bitmap_isset(cur, f) && (d.chance(1, 2) || (narrowed && k == 0))) hwloc_bitmap_set(s, f); } hwloc_bitmap_foreach_end(); if (hwloc_bitmap_iszero(s)) hwloc_bitmap_set(s, hwloc_bitmap_first(narrowed ? allowed : cur));
     int r = hwloc_set_cpubind(t, s, HWLOC_CPUBIND_THREAD); CHECK(c, r == 0, "live_set", "set_cpubind(THREAD, %s) failed errno %d", bstr(s).c_str(), errno);
     hwloc_bitmap_t g = dirty_bitmap(d); CHECK(c, hwloc_get_cpubind(t, g, HWLOC_CPUBIND_THREAD) == 0 && hwloc_bitmap_isequal(g, s), "live_roundtrip", "bound the thread to %s, read back %s", bstr(s).c_str(), bstr(g).c_str());
     // the process-wide views are the union over the threads: this thread's set, plus the second thread's PU when there is one; output bitmaps are dirty on purpose
